@@ -1,8 +1,862 @@
-//! C13 — monitor not built yet.
+//! C13 — no path argument reaches outside the workspace root.
+//!
+//! Layout per case: `K/top/` is the monitored region — sentinel files and directories with unique
+//! canaries at three levels above the root, `top/o1/o2/ws/` = workspace root, sibling `ws2/`, a planted
+//! foreign checkpoint directory; `K/data` = data dir (outside the monitored region). Every operation
+//! runs in a child process (`rv c13-child`, one per configuration: cwd = root / outer / "/" / sibling /
+//! a sub-directory of the root) because the working directory is process-global.
+//!
+//! Monitors (per operation): (1) manifest of everything in `top/` outside the root before/after — any
+//! difference is a violation; (2) a canary of an outside sentinel in the op's frames / output or in any
+//! file under the root (incl. `.rip/`) means an outside file was read; (3) a path that is absolute or
+//! has a `..` component (harness decides with `Path::components`) must make the op report failure and
+//! leave the manifest of the whole root incl. `.rip/checkpoints` unchanged; (4) thorough tier: a sample
+//! of children runs under `strace -f -e trace=%file` and every successful file syscall between the
+//! step markers whose lexically resolved path is outside root / data / system prefixes is reported.
+//!
+//! Policy notes: for checkpoint `files[]` an absolute path that lies lexically inside the root (no `..`)
+//! is legitimate (C14 quantifies over it, the repo's tests use it) and is not required to be refused;
+//! log artifacts a task creates under `.rip/artifacts` before refusing its cwd are counted, not judged.
+
+#[path = "ws_child.rs"]
+pub mod ws_child;
+
+use crate::fixture::scratch_root;
+use crate::prng::Rng;
 use crate::report::{Cfg, Report};
+use serde_json::{json, Value};
+use std::collections::BTreeMap;
+use std::path::{Component, Path, PathBuf};
+use std::time::Duration;
+
+pub fn child_main(args: &[String]) -> i32 {
+    ws_child::child_main(args)
+}
+
+pub struct Layout {
+    pub k: PathBuf,
+    pub top: PathBuf,
+    pub outer: PathBuf,
+    pub root: PathBuf,
+    pub ws2: PathBuf,
+    pub data: PathBuf,
+    pub sentinels: BTreeMap<String, String>,
+    pub sentinel_dirs: Vec<String>,
+    pub canaries: Vec<String>,
+}
+
+pub fn build_layout(k: &Path, rng: &mut Rng) -> Layout {
+    let _ = std::fs::remove_dir_all(k);
+    let top = k.join("top");
+    let outer = top.join("o1").join("o2");
+    let root = outer.join("ws");
+    let ws2 = outer.join("ws2");
+    let data = k.join("data");
+    for d in [&root, &ws2, &data, &outer.join("sdir"), &outer.join("emptyd"), &outer.join("evilcp").join("files")] {
+        let _ = std::fs::create_dir_all(d);
+    }
+    let mut canaries = Vec::new();
+    let mut can = |tag: &str, rng: &mut Rng| -> String {
+        let c = format!("RVCANARY-{tag}-{}", rng.hex(10));
+        canaries.push(c.clone());
+        c
+    };
+    let mut sentinels: BTreeMap<String, String> = BTreeMap::new();
+    let mut put = |p: PathBuf, content: String| {
+        sentinels.insert(p.to_string_lossy().to_string(), content);
+    };
+    put(top.join("sent0.txt"), format!("{}\n", can("top", rng)));
+    put(top.join("o1").join("sent1.txt"), format!("{}\n", can("o1", rng)));
+    put(outer.join("sent.txt"), format!("{}\n", can("outer", rng)));
+    put(outer.join("a.txt"), format!("{}\n", can("outer-a", rng)));
+    put(outer.join("sdir").join("inner.txt"), format!("{}\n", can("inner", rng)));
+    let name_can = can("name", rng);
+    put(outer.join("sdir").join(format!("{name_can}.txt")), "named\n".to_string());
+    put(ws2.join("peer.txt"), format!("{}\n", can("peer", rng)));
+    put(ws2.join("a.txt"), format!("{}\n", can("ws2-a", rng)));
+    let label = can("evil-label", rng);
+    put(
+        outer.join("evilcp").join("checkpoint.json"),
+        json!({"id": "evilcp", "session_id": "s", "label": label, "created_at_ms": 1,
+               "files": [{"path": "a.txt", "exists": true, "sha256": null}, {"path": "planted.txt", "exists": true, "sha256": null}]})
+        .to_string(),
+    );
+    put(outer.join("evilcp").join("files").join("a.txt"), format!("{}\n", can("evil-a", rng)));
+    put(outer.join("evilcp").join("files").join("planted.txt"), format!("{}\n", can("evil-planted", rng)));
+    for (p, c) in &sentinels {
+        let _ = std::fs::write(p, c);
+    }
+    // inside the root (no canaries)
+    let _ = std::fs::create_dir_all(root.join("sub").join("deep"));
+    let _ = std::fs::create_dir_all(root.join("d"));
+    let _ = std::fs::write(root.join("a.txt"), "inside a\n");
+    let _ = std::fs::write(root.join("sub").join("b.txt"), "inside b\n");
+    let _ = std::fs::write(root.join("sub").join("deep").join("c.txt"), "inside c\n");
+    let _ = std::fs::write(root.join("sp ace.txt"), "inside space\n");
+    let _ = std::fs::write(root.join("only_in_root.txt"), "inside only\n");
+    Layout {
+        k: k.to_path_buf(),
+        sentinel_dirs: vec![outer.join("emptyd").to_string_lossy().to_string()],
+        top,
+        outer,
+        root,
+        ws2,
+        data,
+        sentinels,
+        canaries,
+    }
+}
+
+pub const CWDS: &[&str] = &["root", "outer", "fsroot", "sibling", "subdir"];
+
+pub fn cwd_path(l: &Layout, name: &str) -> PathBuf {
+    match name {
+        "root" => l.root.clone(),
+        "outer" => l.outer.clone(),
+        "fsroot" => PathBuf::from("/"),
+        "sibling" => l.ws2.clone(),
+        _ => l.root.join("sub"),
+    }
+}
+
+/// (path string, fine-grained class)
+pub fn path_grammar(l: &Layout) -> Vec<(String, &'static str)> {
+    let r = l.root.to_string_lossy().to_string();
+    let o = l.outer.to_string_lossy().to_string();
+    let t = l.top.to_string_lossy().to_string();
+    let name_can = l.canaries.iter().find(|c| c.contains("-name-")).cloned().unwrap_or_default();
+    let mut v: Vec<(String, &'static str)> = Vec::new();
+    let mut add = |class: &'static str, items: Vec<String>| {
+        for i in items {
+            v.push((i, class));
+        }
+    };
+    add("abs_outside", vec![format!("{o}/sent.txt"), format!("{t}/sent0.txt"), format!("{o}/sdir"), format!("{o}/ws2/peer.txt"), format!("{o}/created_abs.txt"), format!("{o}/evilcp")]);
+    // NOTE: no path of this grammar may resolve (against the root, the cwd, or after a defective resolver dropped or
+    // kept its `..`) to a file the harness does not own: a defective rewind deletes / overwrites what it resolves to.
+    add("abs_fs_root", vec!["/".into()]);
+    add("abs_inside", vec![format!("{r}/a.txt"), format!("{r}/new_abs.txt"), r.clone(), format!("{r}/sub")]);
+    add("abs_inside_dotdot", vec![format!("{r}/../sent.txt"), format!("{r}/sub/../a.txt"), format!("{r}/../ws2/peer.txt"), format!("{r}/../created_abs_dd.txt")]);
+    add("dotdot_leading", vec!["../sent.txt".into(), "../sdir/inner.txt".into(), "../ws2/peer.txt".into(), "../ws2/a.txt".into(), "../created_dd.txt".into(), "../sdir".into(), "..".into(), "../evilcp".into()]);
+    add("dotdot_deep", vec!["../../sent1.txt".into(), "../../../sent0.txt".into(), "../../../../evilcp".into()]);
+    // exactly as many `..` as the root is deep, then the absolute path of an outside sentinel: the source is that
+    // sentinel; the copy a defective checkpoint resolver makes (files/<rel>) lands 5 levels below `/`, which is still
+    // inside this case's scratch directory (checked), so nothing the harness does not own is ever touched
+    let depth = l.root.components().filter(|c| matches!(c, Component::Normal(_))).count();
+    if let Some(p) = deep_sentinel_path(l) {
+        let _ = depth;
+        add("dotdot_to_fs_root", vec![p]);
+    }
+    add("dotdot_middle", vec!["sub/../../sent.txt".into(), "sub/deep/../../../sent.txt".into(), "a/../../sent.txt".into(), "a.txt/../../sent.txt".into()]);
+    add("dotdot_trailing", vec!["sub/..".into(), "sub/deep/../..".into(), "../sdir/..".into()]);
+    add("dot_dotdot", vec!["./../sent.txt".into(), "././../sent.txt".into(), "sub/./../../sent.txt".into()]);
+    add("dotdot_inside", vec!["sub/../a.txt".into(), "sub/deep/../b.txt".into()]);
+    add("backslash", vec!["..\\sent.txt".into(), "sub\\b.txt".into(), "..\\..\\sent1.txt".into()]);
+    add("dot", vec![".".into(), "./a.txt".into(), "sub/./b.txt".into(), "./".into()]);
+    add("empty", vec!["".into(), " ".into()]);
+    add("slashes", vec!["a.txt/".into(), "sub/".into(), "sub//".into(), "sub//b.txt".into(), "sub///deep//c.txt".into()]);
+    add("long", vec!["x".repeat(5000), format!("sub/{}", "y".repeat(5000)), format!("../{}", "z".repeat(5000)), format!("{}f", "long/".repeat(1200))]);
+    add("unicode", vec!["ünï/日本.txt".into(), "sub/🙂.txt".into(), "\u{2025}/sent.txt".into(), "．．/sent.txt".into(), "..\u{200b}/sent.txt".into(), "sub/e\u{301}.txt".into()]);
+    add("nul", vec!["a\0b.txt".into(), "../sent.txt\0".into(), "\0".into(), "sub/\0/../../sent.txt".into()]);
+    add("rel_sentinel_name", vec!["sent.txt".into(), "sdir/inner.txt".into(), "peer.txt".into(), "sdir".into(), format!("sdir/{name_can}.txt"), format!("{}/sent.txt", o.trim_start_matches('/')), "evilcp".into()]);
+    add("rel_inside", vec!["a.txt".into(), "sub/b.txt".into(), "new.txt".into(), "sub/new2.txt".into(), "d".into(), "sub".into(), "sp ace.txt".into()]);
+    add("tilde_env", vec!["~/x".into(), "$HOME/x".into(), "~root/.profile".into()]);
+    add("abs_double_slash", vec![format!("/{o}/sent.txt"), "///".into()]);
+    v
+}
+
+/// `../` x depth(root) + absolute path of the outer sentinel, provided the copy `files/<rel>` of a resolver that keeps
+/// `..` lands inside this case's directory (5 components below `/`).
+fn deep_sentinel_path(l: &Layout) -> Option<String> {
+    let depth = l.root.components().filter(|c| matches!(c, Component::Normal(_))).count();
+    let k_depth = l.k.components().filter(|c| matches!(c, Component::Normal(_))).count();
+    if !(3..=5).contains(&k_depth) {
+        return None;
+    }
+    let sent = l.outer.join("sent.txt");
+    Some(format!("{}{}", "../".repeat(depth), sent.to_string_lossy().trim_start_matches('/')))
+}
+
+/// Random composition from the grammar's segments (used after the enumeration is exhausted).
+fn random_path(l: &Layout, rng: &mut Rng) -> (String, &'static str) {
+    const SEGS: &[&str] = &["..", ".", "", "sub", "deep", "a.txt", "sent.txt", "sdir", "ws2", "ws", "o2", "o1", "b.txt", "peer.txt", "evilcp", "é", "..\\", "a\0"];
+    let n = 1 + rng.usize(6);
+    let mut parts: Vec<String> = (0..n).map(|_| SEGS[rng.usize(SEGS.len())].to_string()).collect();
+    // never more than four `..`: root.join(path) stays inside this case's directory whatever the resolver does
+    let mut ups = 0;
+    for part in parts.iter_mut() {
+        if part == ".." || part == "..\\" {
+            ups += 1;
+            if ups > 4 {
+                *part = "sub".to_string();
+            }
+        }
+    }
+    if rng.chance(1, 6) {
+        parts.insert(0, l.root.to_string_lossy().to_string());
+    } else if rng.chance(1, 8) {
+        parts.insert(0, l.outer.to_string_lossy().to_string());
+    }
+    (parts.join("/"), "random")
+}
+
+pub const KINDS: &[&str] = &[
+    "read", "write", "write_router", "ls", "grep", "patch_add", "patch_delete", "patch_update", "patch_move", "ws_patch",
+    "cp_create_direct", "cp_create_runner", "cp_create_router", "cp_roundtrip_direct", "cp_roundtrip_runner",
+    "cp_roundtrip_router", "auto_roundtrip", "rewind_id_direct", "rewind_id_runner", "rewind_id_router", "bash_cwd",
+    "task_cwd", "artifact_fetch_id",
+];
+
+#[derive(Clone, Debug)]
+struct Meta {
+    kind: &'static str,
+    path: String,
+    class: &'static str,
+    /// "main" = the step that takes the path argument, "rewind" = follow-up rewind, "setup" = harness op
+    role: &'static str,
+}
+
+fn patch_for(kind: &str, p: &str, variant: u64) -> String {
+    let body = match (kind, variant % 4) {
+        ("patch_add", _) | ("ws_patch", 0) => format!("*** Add File: {p}\n+added by patch"),
+        ("patch_delete", _) | ("ws_patch", 1) => format!("*** Delete File: {p}"),
+        ("patch_update", _) | ("ws_patch", 2) => format!("*** Update File: {p}\n@@\n-inside a\n+changed by patch"),
+        _ => format!("*** Update File: only_in_root.txt\n*** Move to: {p}\n@@\n-inside only\n+moved by patch"),
+    };
+    format!("*** Begin Patch\n{body}\n*** End Patch")
+}
+
+fn steps_for(kind: &'static str, p: &str, class: &'static str, variant: u64, next_index: usize, root: &str) -> (Vec<Value>, Vec<Meta>) {
+    let m = |role: &'static str| Meta { kind, path: p.to_string(), class, role };
+    let tool = |driver: &str, name: &str, args: Value| json!({"op": "tool", "driver": driver, "name": name, "args": args});
+    match kind {
+        "read" => (vec![tool("runner", "read", json!({"path": p}))], vec![m("main")]),
+        "write" => (vec![tool("runner", "write", json!({"path": p, "content": "written by tool\n"}))], vec![m("main")]),
+        "write_router" => (
+            vec![tool("router", "write", json!({"path": p, "content": "written via router\n", "atomic": variant % 2 == 0}))],
+            vec![m("main")],
+        ),
+        "ls" => (vec![tool("runner", "ls", json!({"path": p, "recursive": variant % 2 == 0}))], vec![m("main")]),
+        "grep" => (vec![tool("runner", "grep", json!({"pattern": "RVCANARY|inside|named", "path": p}))], vec![m("main")]),
+        "patch_add" | "patch_delete" | "patch_update" | "patch_move" => (
+            vec![tool(if variant % 3 == 0 { "router" } else { "runner" }, "apply_patch", json!({"patch": patch_for(kind, p, variant)}))],
+            vec![m("main")],
+        ),
+        "ws_patch" => (vec![json!({"op": "ws_patch", "patch": patch_for(kind, p, variant)})], vec![m("main")]),
+        "cp_create_direct" | "cp_create_runner" | "cp_create_router" => {
+            let d = &kind["cp_create_".len()..];
+            let files = if variant % 3 == 0 { json!([format!("{root}/a.txt"), p]) } else { json!([p]) };
+            (vec![json!({"op": "cp_create", "driver": d, "files": files, "label": "c13"})], vec![m("main")])
+        }
+        "cp_roundtrip_direct" | "cp_roundtrip_runner" | "cp_roundtrip_router" => {
+            let d = &kind["cp_roundtrip_".len()..];
+            (
+                vec![
+                    json!({"op": "cp_create", "driver": d, "files": [p], "label": "c13-rt"}),
+                    json!({"op": "mutate_sentinels"}),
+                    json!({"op": "cp_rewind", "driver": d, "ref": next_index}),
+                ],
+                vec![m("main"), m("setup"), m("rewind")],
+            )
+        }
+        "auto_roundtrip" => (
+            vec![
+                tool("runner", "write", json!({"path": p, "content": "written before rewind\n"})),
+                json!({"op": "mutate_sentinels"}),
+                json!({"op": "cp_rewind", "driver": "runner", "ref": next_index}),
+            ],
+            vec![m("main"), m("setup"), m("rewind")],
+        ),
+        "rewind_id_direct" | "rewind_id_runner" | "rewind_id_router" => {
+            let d = &kind["rewind_id_".len()..];
+            (vec![json!({"op": "cp_rewind", "driver": d, "id": p})], vec![m("main")])
+        }
+        "bash_cwd" => (vec![tool("runner", "bash", json!({"command": "pwd", "cwd": p}))], vec![m("main")]),
+        "task_cwd" => (vec![json!({"op": "task", "args": {"command": "pwd", "cwd": p}})], vec![m("main")]),
+        _ => (vec![tool("runner", "artifact_fetch", json!({"id": p}))], vec![m("main")]),
+    }
+}
+
+pub fn coarse_class(p: &str) -> &'static str {
+    let path = Path::new(p);
+    if path.components().any(|c| matches!(c, Component::ParentDir)) {
+        "dotdot"
+    } else if path.is_absolute() {
+        "absolute"
+    } else if !path.components().any(|c| matches!(c, Component::Normal(_))) {
+        // "", ".", "./" … : the root directory itself
+        "root_itself"
+    } else {
+        "relative"
+    }
+}
+
+fn must_refuse(kind: &str, p: &str, root: &Path) -> bool {
+    let path = Path::new(p);
+    let dotdot = path.components().any(|c| matches!(c, Component::ParentDir));
+    if dotdot {
+        return true;
+    }
+    if path.is_absolute() {
+        let checkpoint_files = kind.starts_with("cp_create") || kind.starts_with("cp_roundtrip");
+        if checkpoint_files && path.starts_with(root) {
+            return false;
+        }
+        return true;
+    }
+    false
+}
+
+fn family(kind: &str, role: &str) -> &'static str {
+    if role == "rewind" {
+        return "checkpoint_rewind";
+    }
+    match kind {
+        "read" => "read",
+        "write" | "write_router" | "auto_roundtrip" => "write",
+        "ls" => "ls",
+        "grep" => "grep",
+        "patch_add" | "patch_delete" | "patch_update" | "patch_move" => "apply_patch",
+        "ws_patch" => "ws_patch",
+        "bash_cwd" => "bash_cwd",
+        "task_cwd" => "task_cwd",
+        "artifact_fetch_id" => "artifact_fetch_id",
+        k if k.starts_with("rewind_id") => "checkpoint_rewind_id",
+        _ => "checkpoint_create",
+    }
+}
 
 pub fn run(cfg: &Cfg) -> i32 {
-    let mut r = Report::new("C13", "exploration", "not built");
-    r.fatal_inconclusive("monitor not built yet");
+    let mut r = Report::new(
+        "C13",
+        "fault_enumeration",
+        "enumeration of (path-taking argument position [23 kinds: read/write/ls/grep path, patch add/delete/update/move-to \
+         via tool and Workspace, checkpoint create files[] via Workspace / ToolRunner / router envelope, create->sentinel \
+         change->rewind round trips, auto-checkpoint of write + rewind, rewind id, bash cwd, task cwd, artifact id] x path \
+         grammar [23 classes, ~90 strings] x process cwd [root, outer, /, sibling, sub-directory]), one child process per \
+         (cwd, block); afterwards seeded random compositions; distinct = (kind, path class, cwd, outcome) tuples observed; \
+         non-trivial = the child executed the step and all three manifests/scans were taken",
+    );
+    r.assume("symlink-based escapes are out of scope");
+    r.assume("absolute checkpoint paths that lie lexically inside the root are legitimate (C14 quantifies over them)");
+    r.assume("task log artifacts under .rip/artifacts created before a cwd refusal are counted, not judged");
+    r.assume("outside reads are visible through canaries (frames, tool output, files under the root) and, in the thorough tier, strace");
+    let base = scratch_root().join(format!("c13-{}", cfg.shard.0));
+    let _ = std::fs::create_dir_all(&base);
+    let strace_ok = cfg.tier == crate::report::Tier::Thorough || cfg.has_flag("--strace");
+    let strace_avail = std::process::Command::new("strace").arg("-V").output().map(|o| o.status.success()).unwrap_or(false);
+    if strace_ok && !strace_avail {
+        r.note("strace", json!("unavailable - monitor (4) skipped"));
+    }
+
+    if let Some(path) = &cfg.replay {
+        let (seed, case) = crate::c12::read_replay(path, cfg.seed);
+        let mut c2 = cfg.clone();
+        c2.seed = seed;
+        one_case(&c2, &mut r, &base, case, false);
+        let _ = std::fs::remove_dir_all(&base);
+        return r.finish(&c2);
+    }
+
+    let max_cases = cfg.tier.pick(3_000u64, 100_000_000u64);
+    let mut case = 0u64;
+    while case < max_cases && !r.over(cfg) {
+        let idx = case;
+        case += 1;
+        if !cfg.mine(idx) {
+            continue;
+        }
+        let strace = strace_ok && strace_avail && (idx / cfg.shard.1) % 3 == 0;
+        one_case(cfg, &mut r, &base, idx, strace);
+    }
+    let _ = std::fs::remove_dir_all(&base);
     r.finish(cfg)
+}
+
+const BLOCK: usize = 40;
+const DIRECTED: u64 = 5;
+
+fn one_case(cfg: &Cfg, r: &mut Report, base: &Path, idx: u64, strace: bool) {
+    let mut rng = cfg.case_rng(idx);
+    let k = base.join(format!("k{idx}"));
+    let l = build_layout(&k, &mut rng);
+    let cwd_name = CWDS[(idx % CWDS.len() as u64) as usize]; // DIRECTED == CWDS.len(): idx 0..4 = one directed child per cwd
+    let cwd = cwd_path(&l, cwd_name);
+    let grammar = path_grammar(&l);
+    let product = KINDS.len() * grammar.len();
+    let blocks = product.div_ceil(BLOCK);
+    let block = (idx.saturating_sub(DIRECTED) / CWDS.len() as u64) as usize;
+
+    // (kind, path) pairs of this child
+    let mut pairs: Vec<(&'static str, String, &'static str, u64)> = Vec::new();
+    if idx < DIRECTED {
+        // directed: one child per cwd, the shortest inputs that exhibit each known finding (and their clean twins)
+        let o = l.outer.to_string_lossy().to_string();
+        let r0 = l.root.to_string_lossy().to_string();
+        let d: Vec<(&'static str, String)> = vec![
+            ("cp_roundtrip_direct", "../ws2/peer.txt".into()),
+            ("cp_roundtrip_router", "../sent.txt".into()),
+            ("cp_create_runner", "sent.txt".into()),
+            ("cp_create_router", format!("{o}/sent.txt")),
+            ("cp_create_direct", "sub/..".into()),
+            ("cp_create_direct", format!("{r0}/a.txt")),
+            ("cp_create_direct", "sub/b.txt".into()),
+            ("write", format!("{o}/created_abs.txt")),
+            ("write", "../ws2/peer.txt".into()),
+            ("write_router", "../sent.txt".into()),
+            ("auto_roundtrip", "sent.txt".into()),
+            ("patch_add", "sent.txt".into()),
+            ("patch_update", "a.txt".into()),
+            ("write", "./".into()),
+            ("write", "new.txt".into()),
+            ("rewind_id_direct", "../../../../evilcp".into()),
+            ("rewind_id_direct", format!("{o}/evilcp")),
+            ("rewind_id_router", "../../../../evilcp".into()),
+            ("read", "../sent.txt".into()),
+            ("grep", "..".into()),
+            ("ls", format!("{o}/sdir")),
+            ("bash_cwd", "..".into()),
+            ("task_cwd", "../sdir".into()),
+            ("cp_create_direct", "./".into()),
+            ("patch_add", ".".into()),
+        ];
+        let mut d = d;
+        if let Some(p) = deep_sentinel_path(&l) {
+            // the stored copy lands outside the root (see path_grammar)
+            d.push(("cp_create_direct", p.clone()));
+            d.push(("write", p));
+        }
+        for (j, (kind, p)) in d.into_iter().enumerate() {
+            pairs.push((kind, p, "directed", j as u64 + 1));
+        }
+    } else if block < blocks {
+        // stride through the product so that one block mixes kinds and classes
+        for j in 0..BLOCK {
+            let lin = block + j * blocks;
+            if lin >= product {
+                break;
+            }
+            let kind = KINDS[lin % KINDS.len()];
+            let (p, class) = grammar[(lin / KINDS.len()) % grammar.len()].clone();
+            pairs.push((kind, p, class, lin as u64 + (idx % 7)));
+        }
+    } else {
+        for _ in 0..BLOCK {
+            let kind = KINDS[rng.usize(KINDS.len())];
+            let (p, class) = if rng.chance(1, 3) { grammar[rng.usize(grammar.len())].clone() } else { random_path(&l, &mut rng) };
+            pairs.push((kind, p, class, rng.below(1000)));
+        }
+    }
+    // the session's checkpoint directory exists in any workspace that has been used before
+    let mut steps: Vec<Value> = vec![json!({"op": "cp_create", "driver": "direct", "files": [format!("{}/a.txt", l.root.to_string_lossy())], "label": "setup"})];
+    let mut metas: Vec<Meta> = vec![Meta { kind: "cp_create_direct", path: String::new(), class: "setup", role: "setup" }];
+    for (kind, p, class, variant) in &pairs {
+        let (s, m) = steps_for(kind, p, class, *variant, steps.len(), &l.root.to_string_lossy());
+        steps.extend(s);
+        metas.extend(m);
+    }
+    let spec = json!({
+        "top": l.top, "root": l.root, "data": l.data, "cwd": cwd, "session": "c13-session",
+        "canaries": l.canaries, "sentinels": l.sentinels, "sentinel_dirs": l.sentinel_dirs,
+        "reset_root": true, "want_tree": false, "steps": steps,
+    });
+    let t_child = std::time::Instant::now();
+    let run = ws_child::run_child(&l.k, &spec, strace, Duration::from_secs(cfg.tier.pick(60, 240)));
+    let Some(doc) = run.doc else {
+        r.inconclusive(&format!("case {idx} (cwd={cwd_name}): {}", run.error.unwrap_or_default()));
+        let _ = std::fs::remove_dir_all(&k);
+        return;
+    };
+    let results: Vec<Value> = doc.get("steps").and_then(|x| x.as_array()).cloned().unwrap_or_default();
+    if cfg.has_flag("--timing") {
+        let exec: u64 = results.iter().map(|x| x.get("exec_us").and_then(|v| v.as_u64()).unwrap_or(0)).sum();
+        let total = results.last().and_then(|x| x.get("since_start_us")).and_then(|v| v.as_u64()).unwrap_or(0);
+        eprintln!("case {idx}: child wall {:?}, steps {}, exec {} ms, child loop {} ms", t_child.elapsed(), results.len(), exec / 1000, total / 1000);
+    }
+    if results.len() != metas.len() {
+        r.inconclusive(&format!("case {idx}: child returned {} of {} steps", results.len(), metas.len()));
+    }
+    let cwd_tag = if cwd_name == "root" { "cwd_eq_root" } else { "cwd_ne_root" };
+    let mut main_hits: std::collections::HashSet<String> = std::collections::HashSet::new();
+    for (si, (res, meta)) in results.iter().zip(metas.iter()).enumerate() {
+        if meta.role == "setup" {
+            continue;
+        }
+        if let Some(why) = res.get("skipped").and_then(|x| x.as_str()) {
+            r.count("steps_skipped", 1);
+            if meta.role == "main" && !why.contains("created no checkpoint") {
+                r.inconclusive(&format!("case {idx} step {si} ({}): {why}", meta.kind));
+            }
+            continue;
+        }
+        if res.get("timed_out").and_then(|x| x.as_bool()) == Some(true) {
+            r.inconclusive(&format!("case {idx} step {si} ({}): run did not end within the watchdog", meta.kind));
+            continue;
+        }
+        r.eval();
+        let ok = res.get("ok").and_then(|x| x.as_bool()).unwrap_or(false);
+        let fam0 = family(meta.kind, meta.role);
+        let coarse = coarse_class(&meta.path);
+        let strs = |key: &str| -> Vec<String> {
+            res.get(key)
+                .and_then(|x| x.as_array())
+                .map(|a| a.iter().filter_map(|x| x.as_str().map(|s| s.to_string())).collect())
+                .unwrap_or_default()
+        };
+        let outside_diff = strs("outside_diff");
+        let mut root_diff = strs("root_diff");
+        let mut hits: Vec<Value> = res.get("canary_hits").and_then(|x| x.as_array()).cloned().unwrap_or_default();
+        // a canary that is part of the supplied path string is echoed in frames / errors / stored metadata / created
+        // file names: not a read
+        hits.retain(|h| {
+            let can = h.get("canary").and_then(|x| x.as_str()).unwrap_or("");
+            !meta.path.contains(can)
+        });
+        // a rewind re-materialises what its create step stored; only canaries not already attributed to that
+        // create step are new reads
+        if meta.role == "rewind" {
+            hits.retain(|h| !main_hits.contains(h.get("canary").and_then(|x| x.as_str()).unwrap_or("")));
+        } else {
+            main_hits = hits.iter().filter_map(|h| h.get("canary").and_then(|x| x.as_str()).map(|s| s.to_string())).collect();
+        }
+        let frame_kinds = strs("frame_kinds");
+        r.count("steps_judged", 1);
+        r.count(&format!("family_{fam0}"), 1);
+        r.count(&format!("class_{}", meta.class), 1);
+        r.count(&format!("cwd_{cwd_name}"), 1);
+        r.count(if ok { "ops_succeeded" } else { "ops_failed" }, 1);
+        r.count("outside_manifests_compared", 1);
+        r.count("canary_scans", 1);
+        if meta.kind == "task_cwd" {
+            let before = root_diff.len();
+            root_diff.retain(|d| !d[2..].starts_with(".rip/artifacts"));
+            if before != root_diff.len() && !ok {
+                r.count("failed_task_left_log_artifacts_not_judged", 1);
+            }
+        }
+        // attribute tool-step effects to the automatic checkpoint when that is where they are
+        let auto_frames = frame_kinds.iter().any(|k| k == "checkpoint_created" || k == "checkpoint_failed");
+        let only_cp_store = |items: &[String]| !items.is_empty() && items.iter().all(|d| d[2..].starts_with(".rip/checkpoints"));
+        let hit_places: Vec<String> = hits.iter().filter_map(|h| h.get("where").and_then(|x| x.as_str()).map(|s| s.to_string())).collect();
+        let hits_only_cp_store = !hit_places.is_empty() && hit_places.iter().all(|w| w.starts_with("root:.rip/checkpoints"));
+        let tool_family = matches!(fam0, "write" | "apply_patch");
+        // the file tools' own resolvers refuse these lexically (no I/O): whatever happened came from the automatic checkpoint
+        let lexically_refused = must_refuse(meta.kind, &meta.path, &l.root) && !ok;
+        let fam_for = |in_store: bool| -> String {
+            if tool_family && auto_frames && in_store {
+                format!("auto_checkpoint_{fam0}")
+            } else {
+                fam0.to_string()
+            }
+        };
+        let tail = if coarse == "relative" { format!("{coarse}/{cwd_tag}") } else { coarse.to_string() };
+        let witness = |what: &str| {
+            json!({"case": idx, "step": si, "cwd": cwd_name, "kind": meta.kind, "role": meta.role, "path": trunc(&meta.path, 300),
+                   "path_class": meta.class, "what": what, "result": res, "root": l.root, "replay_note": "re-run with --replay: the case index and seed regenerate the same child spec"})
+        };
+        let mut outcome = if ok { "ok".to_string() } else { "fail".to_string() };
+
+        // (1) nothing outside the root changes
+        if !outside_diff.is_empty() {
+            outcome.push_str("+outside_modified");
+            r.violation(
+                &format!("C13/outside_modified/{}/{tail}", fam_for(lexically_refused)),
+                &format!("{} with path {:?} (cwd={cwd_name}) changed files outside the workspace root: {:?}", meta.kind, trunc(&meta.path, 80), outside_diff),
+                witness("outside manifest differs"),
+            );
+        }
+        // (2) no canary of an outside sentinel shows up
+        if !hits.is_empty() {
+            outcome.push_str("+outside_read");
+            r.violation(
+                &format!("C13/outside_read/{}/{tail}", fam_for(hits_only_cp_store || lexically_refused)),
+                &format!("{} with path {:?} (cwd={cwd_name}) read an outside sentinel: canary found in {:?}", meta.kind, trunc(&meta.path, 80), hit_places),
+                witness("canary of an outside file observed"),
+            );
+        }
+        // (3) refusal without side effects
+        if meta.role == "main" && must_refuse(meta.kind, &meta.path, &l.root) {
+            r.count("refusals_required", 1);
+            if ok {
+                outcome.push_str("+not_refused");
+                r.violation(
+                    &format!("C13/not_refused/{fam0}/{tail}"),
+                    &format!("{} accepted path {:?} (absolute or containing '..')", meta.kind, trunc(&meta.path, 80)),
+                    witness("operation reported success"),
+                );
+            } else if !root_diff.is_empty() {
+                outcome.push_str("+side_effect");
+                r.violation(
+                    &format!("C13/refused_side_effect/{}/{tail}", fam_for(only_cp_store(&root_diff))),
+                    &format!("{} refused path {:?} but left side effects inside the root: {:?}", meta.kind, trunc(&meta.path, 80), &root_diff[..root_diff.len().min(6)]),
+                    witness("root manifest (incl. .rip) differs after a refused request"),
+                );
+            } else {
+                r.count("refused_without_side_effect", 1);
+            }
+        }
+        r.distinct_str(&format!("{}|{}|{}|{}|{outcome}", meta.kind, meta.role, meta.class, cwd_name));
+        if r.samples.len() < r.max_samples && si % 17 == 3 {
+            r.sample(json!({"case": idx, "cwd": cwd_name, "kind": meta.kind, "path": trunc(&meta.path, 120), "class": meta.class,
+                            "ok": ok, "error": res.get("error"), "frame_kinds": frame_kinds, "outside_diff": outside_diff, "root_diff": root_diff}));
+        }
+    }
+    // (4) strace
+    if let Some(log) = run.strace_log {
+        judge_strace(r, &log, &l, &cwd, &metas, &results, idx, cwd_name);
+    }
+    if cfg.has_flag("--keep") {
+        let keep = std::path::PathBuf::from(format!("/tmp/rv-keep-c13-{idx}"));
+        let _ = std::fs::remove_dir_all(&keep);
+        crate::fixture::copy_dir(&k, &keep);
+    }
+    let _ = std::fs::remove_dir_all(&k);
+}
+
+pub fn trunc(s: &str, n: usize) -> String {
+    if s.len() <= n {
+        return s.to_string();
+    }
+    let mut cut = n;
+    while !s.is_char_boundary(cut) {
+        cut -= 1;
+    }
+    format!("{}…[{} bytes]", &s[..cut], s.len())
+}
+
+// ------------------------------------------------------------------------------------------
+// strace monitor
+// ------------------------------------------------------------------------------------------
+
+fn lexical(base: &Path, p: &str) -> PathBuf {
+    let joined = if Path::new(p).is_absolute() { PathBuf::from(p) } else { base.join(p) };
+    let mut out = PathBuf::from("/");
+    for c in joined.components() {
+        match c {
+            Component::ParentDir => {
+                out.pop();
+            }
+            Component::Normal(s) => out.push(s),
+            _ => {}
+        }
+    }
+    out
+}
+
+/// Decode a strace C-string body (handles \n \t \\ \" and octal / hex escapes).
+fn unescape(s: &str) -> String {
+    let b = s.as_bytes();
+    let mut out: Vec<u8> = Vec::new();
+    let mut i = 0;
+    while i < b.len() {
+        if b[i] == b'\\' && i + 1 < b.len() {
+            i += 1;
+            match b[i] {
+                b'n' => out.push(b'\n'),
+                b't' => out.push(b'\t'),
+                b'r' => out.push(b'\r'),
+                b'x' => {
+                    let h = std::str::from_utf8(&b[i + 1..(i + 3).min(b.len())]).unwrap_or("0");
+                    out.push(u8::from_str_radix(h, 16).unwrap_or(b'?'));
+                    i += 2;
+                }
+                d if d.is_ascii_digit() => {
+                    let mut j = i;
+                    let mut v = 0u32;
+                    while j < b.len() && j < i + 3 && (b'0'..=b'7').contains(&b[j]) {
+                        v = v * 8 + (b[j] - b'0') as u32;
+                        j += 1;
+                    }
+                    out.push(v as u8);
+                    i = j - 1;
+                }
+                other => out.push(other),
+            }
+        } else {
+            out.push(b[i]);
+        }
+        i += 1;
+    }
+    String::from_utf8_lossy(&out).to_string()
+}
+
+fn quoted_args(args: &str) -> Vec<String> {
+    let b = args.as_bytes();
+    let mut out = Vec::new();
+    let mut i = 0;
+    while i < b.len() {
+        if b[i] == b'"' {
+            let mut j = i + 1;
+            while j < b.len() {
+                if b[j] == b'\\' {
+                    j += 2;
+                    continue;
+                }
+                if b[j] == b'"' {
+                    break;
+                }
+                j += 1;
+            }
+            out.push(unescape(&args[i + 1..j.min(b.len())]));
+            i = j + 1;
+        } else {
+            i += 1;
+        }
+    }
+    out
+}
+
+fn judge_strace(r: &mut Report, log: &Path, l: &Layout, cwd: &Path, metas: &[Meta], results: &[Value], idx: u64, cwd_name: &str) {
+    let Ok(text) = std::fs::read(log) else {
+        r.inconclusive(&format!("case {idx}: strace log unreadable"));
+        return;
+    };
+    let text = String::from_utf8_lossy(&text);
+    let exe = std::env::current_exe().unwrap_or_default();
+    let home_cargo = std::env::var("HOME").map(|h| format!("{h}/.cargo")).unwrap_or_else(|_| "/root/.cargo".into());
+    let allowed_prefixes: Vec<PathBuf> = ["/usr", "/lib", "/lib64", "/bin", "/sbin", "/etc", "/proc", "/sys", "/dev", "/run", "/var", "/opt", "/rv-marker"]
+        .iter()
+        .map(PathBuf::from)
+        .chain([PathBuf::from(home_cargo), exe.clone(), l.data.clone(), l.k.join("child-scratch"), l.k.join("spec.json"), l.k.join("out.json")])
+        .collect();
+    let mut pending: BTreeMap<String, String> = BTreeMap::new();
+    let mut cwd_of: BTreeMap<String, PathBuf> = BTreeMap::new();
+    let mut step: Option<usize> = None;
+    let mut seen_steps = 0u64;
+    let mut checked = 0u64;
+    for raw in text.lines() {
+        let Some((pid, rest)) = raw.split_once(' ') else {
+            continue;
+        };
+        let rest = rest.trim_start();
+        let line: String = if rest.ends_with("<unfinished ...>") {
+            pending.insert(pid.to_string(), rest.trim_end_matches("<unfinished ...>").to_string());
+            continue;
+        } else if rest.starts_with("<... ") {
+            let Some(pos) = rest.find("resumed>") else {
+                continue;
+            };
+            let head = pending.remove(pid).unwrap_or_default();
+            format!("{head}{}", &rest[pos + "resumed>".len()..])
+        } else {
+            rest.to_string()
+        };
+        let Some(open) = line.find('(') else {
+            continue;
+        };
+        let name = &line[..open];
+        let Some(eq) = line.rfind(" = ") else {
+            continue;
+        };
+        let args = &line[open + 1..eq];
+        let ret = line[eq + 3..].trim();
+        let success = !ret.starts_with("-1") && !ret.starts_with('?');
+        let paths = quoted_args(args);
+        if let Some(p) = paths.first() {
+            if let Some(rest) = p.strip_prefix("/rv-marker/") {
+                let mut it = rest.split('/');
+                let n: Option<usize> = it.next().and_then(|x| x.parse().ok());
+                match it.next() {
+                    Some("begin") => {
+                        step = n;
+                        seen_steps += 1;
+                    }
+                    _ => step = None,
+                }
+                continue;
+            }
+        }
+        if name == "chdir" && success {
+            if let Some(p) = paths.first() {
+                let base = cwd_of.get(pid).cloned().unwrap_or_else(|| cwd.to_path_buf());
+                cwd_of.insert(pid.to_string(), lexical(&base, p));
+            }
+            continue;
+        }
+        let Some(si) = step else {
+            continue;
+        };
+        if !success || paths.is_empty() {
+            continue;
+        }
+        let interesting = matches!(
+            name,
+            "open" | "openat" | "openat2" | "creat" | "stat" | "lstat" | "statx" | "newfstatat" | "access" | "faccessat" | "faccessat2"
+                | "unlink" | "unlinkat" | "rename" | "renameat" | "renameat2" | "mkdir" | "mkdirat" | "rmdir" | "readlink" | "readlinkat"
+                | "truncate" | "chmod" | "fchmodat" | "link" | "linkat" | "symlink" | "symlinkat" | "utimensat"
+        );
+        if !interesting {
+            continue;
+        }
+        // a relative path with a real dirfd cannot be resolved lexically
+        let at_variant = name.ends_with("at") || name == "statx" || name == "openat2" || name == "renameat2" || name == "faccessat2";
+        let base = cwd_of.get(pid).cloned().unwrap_or_else(|| cwd.to_path_buf());
+        let n_paths = if matches!(name, "rename" | "renameat" | "renameat2" | "link" | "linkat") { 2 } else { 1 };
+        for p in paths.iter().take(n_paths) {
+            if p.is_empty() {
+                continue;
+            }
+            if !Path::new(p).is_absolute() && at_variant && !args.trim_start().starts_with("AT_FDCWD") {
+                r.count("strace_relative_to_dirfd_not_resolved", 1);
+                continue;
+            }
+            let abs = lexical(&base, p);
+            checked += 1;
+            let stat_like = matches!(name, "stat" | "lstat" | "statx" | "newfstatat" | "access" | "faccessat" | "faccessat2" | "readlink" | "readlinkat");
+            let allowed = abs.starts_with(&l.root)
+                || allowed_prefixes.iter().any(|a| abs.starts_with(a))
+                || (stat_like && (l.root.starts_with(&abs) || abs == Path::new("/")));
+            if allowed {
+                continue;
+            }
+            let base_name = abs.file_name().map(|x| x.to_string_lossy().to_string()).unwrap_or_default();
+            let abs_s = abs.to_string_lossy().to_string();
+            if matches!(base_name.as_str(), ".gitignore" | ".ignore" | ".git" | ".rgignore" | ".jj" | ".gitconfig")
+                || abs_s.contains("/.config/git")
+            {
+                // ignore-file / git-config discovery of the `ignore` crate walker (ls / grep), independent of the argument
+                r.count("ambient_ignore_file_probe_outside_root_not_judged", 1);
+                continue;
+            }
+            let Some(meta) = metas.get(si) else {
+                continue;
+            };
+            if meta.role == "setup" {
+                continue;
+            }
+            let fam0 = family(meta.kind, meta.role);
+            let coarse = coarse_class(&meta.path);
+            let cwd_tag = if cwd_name == "root" { "cwd_eq_root" } else { "cwd_ne_root" };
+            let tail = if coarse == "relative" { format!("{coarse}/{cwd_tag}") } else { coarse.to_string() };
+            let write_like = !stat_like
+                && (!matches!(name, "open" | "openat" | "openat2")
+                    || ["O_WRONLY", "O_RDWR", "O_CREAT", "O_TRUNC", "O_APPEND"].iter().any(|f| args.contains(f)));
+            let auto_frames = results
+                .get(si)
+                .and_then(|x| x.get("frame_kinds"))
+                .and_then(|x| x.as_array())
+                .map(|a| a.iter().any(|k| matches!(k.as_str(), Some("checkpoint_created") | Some("checkpoint_failed"))))
+                .unwrap_or(false);
+            // a file tool's own resolver is purely lexical: reads outside during a write / apply_patch step with an
+            // automatic checkpoint frame come from that checkpoint
+            let fam = if matches!(fam0, "write" | "apply_patch") && auto_frames && (!write_like || (must_refuse(meta.kind, &meta.path, &l.root) && results.get(si).and_then(|x| x.get("ok")).and_then(|x| x.as_bool()) != Some(true))) {
+                format!("auto_checkpoint_{fam0}")
+            } else {
+                fam0.to_string()
+            };
+            let class = if write_like { "outside_modified" } else { "outside_read" };
+            r.count(&format!("strace_{class}_events"), 1);
+            r.violation(
+                &format!("C13/{class}/{fam}/{tail}"),
+                &format!("{} with path {:?} (cwd={cwd_name}): strace shows a successful {name} on {} which is outside root / data / system prefixes", meta.kind, trunc(&meta.path, 80), abs.display()),
+                json!({"case": idx, "step": si, "cwd": cwd_name, "kind": meta.kind, "path": trunc(&meta.path, 300), "monitor": "strace", "syscall": trunc(&line, 400)}),
+            );
+        }
+    }
+    r.count("strace_children", 1);
+    r.count("strace_steps_bracketed", seen_steps);
+    r.count("strace_paths_checked", checked);
+    if seen_steps == 0 {
+        r.inconclusive(&format!("case {idx}: strace log contains no step markers"));
+    }
 }
